@@ -502,12 +502,14 @@ type faultWriter struct {
 	buf    bytes.Buffer
 	calls  int
 	failAt int // -1: never
+	fired  bool
 }
 
 func (f *faultWriter) Write(p []byte) (int, error) {
 	i := f.calls
 	f.calls++
 	if i == f.failAt {
+		f.fired = true
 		return 0, errInjected
 	}
 	return f.buf.Write(p)
@@ -542,9 +544,16 @@ func c18WriteFaults(w *mon.W, api, desc string, refBytes []byte, f func(io.Write
 		fw := &faultWriter{failAt: i}
 		c, err := f(fw)
 		w.Eval(1)
+		if !fw.fired {
+			// this run made fewer Write calls than the measured one (container writers iterate
+			// over a Go map, so the write pattern varies between runs): no fault was injected
+			w.Count("write-fault-not-reached", 1)
+			continue
+		}
 		w.Cover("write-fault/" + api)
 		w.Distinct(desc, api, "write", i)
-		if i == n-1 {
+		last := i == n-1 // the final flush of the measured write pattern
+		if last {
 			w.Cover("write/final-flush-fault")
 		}
 		if err == nil {
@@ -553,7 +562,7 @@ func c18WriteFaults(w *mon.W, api, desc string, refBytes []byte, f func(io.Write
 			m["write_calls"] = n
 			m["returned_cid"] = c.String()
 			pos := "middle"
-			if i == n-1 {
+			if last {
 				pos = "last"
 			} else if i == 0 {
 				pos = "first"
